@@ -31,7 +31,7 @@ RULE = ('one history per case on ONE live object of the family named by the gene
 CLASSES = ['bkg_none', 'bkg_below', 'bkg_inside', 'bkg_above', 'radial_profile', 'curve_of_growth',
            'aper_circle', 'aper_ellipse', 'aper_rect', 'aper_annulus',
            'psfphot', 'psfphot_grouped', 'psfphot_finder', 'iterpsf',
-           'daofinder', 'iraffinder', 'starfinder', 'ellipse', 'gridded']
+           'daofinder', 'iraffinder', 'starfinder', 'ellipse', 'gridded', 'sky_aperture']
 MUST_REACH = ['photutils.background.background_2d:Background2D.background_mesh',
               'photutils.background.background_2d:Background2D.background_rms_mesh',
               'photutils.background.background_2d:Background2D._selective_filter',
@@ -58,7 +58,9 @@ MUST_REACH = ['photutils.background.background_2d:Background2D.background_mesh',
               'photutils.detection.daofinder:DAOStarFinder._get_raw_catalog',
               'photutils.detection.irafstarfinder:IRAFStarFinder._get_raw_catalog',
               'photutils.isophote.ellipse:Ellipse.fit_image',
-              'photutils.isophote.ellipse:Ellipse.fit_isophote']
+              'photutils.isophote.ellipse:Ellipse.fit_isophote',
+              'photutils.aperture.core:SkyAperture._to_pixel_params',
+              'photutils.aperture.core:PixelAperture._to_sky_params']
 ANCHOR_FILES = ['background/background_2d.py', 'profiles/core.py', 'profiles/radial_profile.py',
                 'profiles/curve_of_growth.py', 'psf/photometry.py', 'aperture/attributes.py', 'aperture/core.py',
                 'psf/gridded_models.py', 'detection/starfinder.py', 'detection/daofinder.py',
@@ -144,5 +146,8 @@ def _run_case(case):
     elif cls == 'gridded':
         from pv.gen import c09_gridded
         c09_gridded.run(case)
+    elif cls == 'sky_aperture':
+        from pv.gen import c09_skyaper
+        c09_skyaper.run(case)
     else:
         raise RuntimeError('unknown class ' + cls)
